@@ -183,6 +183,11 @@ def run(ctx):
             guarded = any('shape' in pretty(c) for c in e.pc)
             ctx.ob('SHAPE', 'tiles are stacked into a regular ndarray only when their shapes are known to agree (ragged edge tiles '
                    'cannot be stacked)', sa, guarded, {'return': e.text(), 'path_condition': [pretty(c)[:120] for c in e.pc]}, node=e.node)
+        elif va is not None and va.kind == 'call' and va.args[0] == 'array':
+            # np.array(list_of_tiles, dtype=object) is NOT a container of the tiles: when the tiles agree on the leading axis
+            # (ragged along frequency only) numpy still tries to build a regular (n, rows, ...) array and raises
+            ctx.ob('SHAPE', 'ragged splits are returned as a container filled tile by tile (np.array(tiles, dtype=object) broadcasts '
+                   'when the tiles share their first dimension)', sa, False, {'return': e.text()}, node=e.node)
         else:
             ctx.ob('SHAPE', 'ragged splits are returned as a container of individual tiles', sa, True, {'return': e.text()}, node=e.node)
     # consumers iterate over the generator once
